@@ -10,7 +10,10 @@ RULE = ("for each generated fault-free graph: every single-fault placement (node
         "failed command, timeout, 3 ordinary exception types; for multi-output parsers every element position x kind, "
         "continue_on_error on/off) x store_skips in {off,on}, plus random multi-fault subsets and raising observers; one "
         "evaluation = one (graph, placement, store_skips) run; non-trivial = the faulty node has at least one dependent "
-        "or sibling that must survive; distinct by hash of (graph, placement)")
+        "or sibling that must survive; distinct by hash of (graph, placement); every fault is raised from a function whose "
+        "code name is unique to (node, element) so that a stored traceback can be attributed, failed commands of different "
+        "nodes are equal in rc/cmd/output; after evaluations with a HostContext the interval timer must be disarmed; plus the "
+        "repository's own graph over faulty synthetic archives and the repository's own test suite under value-free monitors")
 ASSUMPTIONS = [
     "ContentException subclasses the skip signal: its recording is optional, but if recorded must be within the allowed key set",
     "allowed keys for a raiser = itself plus every registry point reachable upwards through dependents or downwards through dependencies",
